@@ -3,6 +3,11 @@
  * into an updated value.
  */
 export function merge(original: any, update: any): any {
+  // No update: nothing changed.
+  if (update === null || update === undefined) {
+    return original;
+  }
+
   if (Array.isArray(update)) {
     if (typeof update[0] === "object") {
       return Object.freeze(update[0]);
@@ -11,7 +16,7 @@ export function merge(original: any, update: any): any {
     }
   }
 
-  if (typeof update !== "object" || update === null) {
+  if (typeof update !== "object") {
     return update;
   }
 
